@@ -65,7 +65,73 @@ class EffectDomain(DefaultDomain):
             return "TF"   # the value of an attribute of a symbolic object is anything
         return super().is_none(value)
 
+    PURE_STR_METHODS = {"split", "rsplit", "partition", "rpartition", "startswith", "endswith", "removeprefix", "removesuffix", "find", "rfind",
+                        "index", "count", "strip", "lstrip", "rstrip", "lower", "upper", "replace", "join", "format", "encode", "decode", "isdigit"}
+
+    @staticmethod
+    def _py(v):
+        """(True, python value) for an abstract value that is a known constant."""
+        if v == NONE:
+            return True, None
+        if v == TRUE:
+            return True, True
+        if v == FALSE:
+            return True, False
+        if isinstance(v, tuple) and len(v) == 2 and v[0] == "const":
+            return True, v[1]
+        if isinstance(v, tuple) and v[:1] == ("tuple",):
+            items = [EffectDomain._py(x) for x in v[1:]]
+            if all(ok for ok, _ in items):
+                return True, tuple(x for _, x in items)
+        return False, None
+
+    @staticmethod
+    def _abs(x):
+        if x is None:
+            return NONE
+        if x is True:
+            return TRUE
+        if x is False:
+            return FALSE
+        if isinstance(x, (tuple, list)):
+            return ("tuple",) + tuple(EffectDomain._abs(y) for y in x)
+        return ("const", x)
+
+    def augassign(self, interp, stmt, value, st, fr):
+        """x op= v on a local or self attribute whose current value is known: x = x op v"""
+        key = interp._key_of(stmt.target, fr)
+        if key is None or not st.has(key):
+            return None
+        new = self.binop(stmt, st.get(key), value)
+        return interp.assign(stmt.target, new, st, fr)
+
+    def joined_str(self, values):
+        """f"{a}/{b}" is the concatenation of its parts"""
+        parts = []
+        for v in values:
+            if isinstance(v, tuple) and v[:1] == ("concat",):
+                parts.extend(v[1:])
+            else:
+                parts.append(v)
+        if all(isinstance(p_, tuple) and p_[:1] == ("const",) and isinstance(p_[1], (str, int)) and not isinstance(p_[1], bool) for p_ in parts):
+            return ("const", "".join(str(p_[1]) for p_ in parts))
+        if all(p_ != TOP for p_ in parts):
+            return ("concat",) + tuple(parts)
+        return NOTNONE
+
     def binop(self, node, left, right):
+        okl, pl = self._py(left)
+        okr, pr = self._py(right)
+        if okl and okr and isinstance(pl, (int, str, bytes)) and isinstance(pr, (int, str, bytes)) and not isinstance(pl, bool) and not isinstance(pr, bool):
+            try:
+                if isinstance(node.op, ast.Add):
+                    return self._abs(pl + pr)
+                if isinstance(node.op, ast.Sub):
+                    return self._abs(pl - pr)
+                if isinstance(node.op, ast.Mult) and isinstance(pl, int) and isinstance(pr, int):
+                    return self._abs(pl * pr)
+            except TypeError:
+                pass
         if isinstance(node.op, ast.Add):
             parts = []
             for v in (left, right):
@@ -85,11 +151,44 @@ class EffectDomain(DefaultDomain):
         if isinstance(op, (ast.In, ast.NotIn)) and isinstance(right, tuple) and right[:1] == ("kwdict",) and isinstance(left, tuple) and left[:1] == ("const",):
             hit = any(k == left[1] for k, _ in right[1])
             return "T" if hit == isinstance(op, ast.In) else "F"
-        if isinstance(op, (ast.Eq, ast.NotEq)) and isinstance(left, tuple) and isinstance(right, tuple) and left[:1] == ("const",) and right[:1] == ("const",):
-            return "T" if (left == right) == isinstance(op, ast.Eq) else "F"
+        if isinstance(op, (ast.In, ast.NotIn)) and isinstance(right, tuple) and right[:1] == ("table",):
+            ok, k = self._py(left)
+            if ok:
+                hit = k in dict(right[1])
+                return "T" if hit == isinstance(op, ast.In) else "F"
+        okl, pl = self._py(left)
+        okr, pr = self._py(right)
+        if okl and okr:
+            try:
+                res = {ast.Eq: lambda: pl == pr, ast.NotEq: lambda: pl != pr, ast.Lt: lambda: pl < pr, ast.LtE: lambda: pl <= pr, ast.Gt: lambda: pl > pr,
+                       ast.GtE: lambda: pl >= pr, ast.In: lambda: pl in pr, ast.NotIn: lambda: pl not in pr}.get(type(op))
+                if res is not None:
+                    return "T" if res() else "F"
+            except TypeError:
+                pass
         return None
 
     def subscript(self, base, idx, st, fr):
+        okb, pb = self._py(base)
+        if okb and isinstance(pb, (str, bytes, tuple)):
+            if isinstance(idx, tuple) and idx[:1] == ("slice",):
+                parts = [self._py(x) for x in idx[1:]]
+                if all(ok for ok, _ in parts):
+                    try:
+                        return self._abs(pb[slice(*[x for _, x in parts])])
+                    except (TypeError, ValueError):
+                        return None
+            oki, pi = self._py(idx)
+            if oki and isinstance(pi, int) and not isinstance(pi, bool):
+                try:
+                    return self._abs(pb[pi])
+                except IndexError:
+                    return None
+        if isinstance(base, tuple) and base[:1] == ("table",):
+            ok, k = self._py(idx)
+            ent = dict(base[1])
+            if ok and k in ent:
+                return ent[k]
         if isinstance(base, tuple) and base[:1] == ("kwdict",) and isinstance(idx, tuple) and idx[:1] == ("const",):
             for k, v in base[1]:
                 if k == idx[1]:
@@ -320,6 +419,40 @@ class EffectDomain(DefaultDomain):
         kwm = self._kwdict_method(interp, call, st, fr)
         if kwm is not None:
             return kwm
+        fa = call.func
+        if isinstance(fa, ast.Attribute) and fa.attr in self.PURE_STR_METHODS and not call.keywords and not any(isinstance(n_, ast.Call) for n_ in ast.walk(fa.value)):
+            folded = []
+            undecided = False
+            for r in interp.eval_list([fa.value] + list(call.args), st, fr):
+                if r.kind == "exc":
+                    folded.append(r)
+                    continue
+                pys = [self._py(v) for v in r.value]
+                if all(ok for ok, _ in pys) and isinstance(pys[0][1], (str, bytes)):
+                    try:
+                        folded.append(val(self._abs(getattr(pys[0][1], fa.attr)(*[x for _, x in pys[1:]])), r.state))
+                        continue
+                    except Exception as e_:  # the concrete call raises: so does the code
+                        folded.append(exc(("exc", type(e_).__name__), r.state))
+                        continue
+                undecided = True
+            if not undecided:
+                return folded
+        if d == "len" and len(call.args) == 1:
+            out = []
+            known = True
+            for r in interp.eval(call.args[0], st, fr):
+                ok_, p_ = self._py(r.value) if r.kind == "val" else (False, None)
+                if r.kind == "exc":
+                    out.append(r)
+                elif ok_ and isinstance(p_, (str, bytes, tuple)):
+                    out.append(val(("const", len(p_)), r.state))
+                elif isinstance(r.value, tuple) and r.value[:1] == ("tuple",):
+                    out.append(val(("const", len(r.value) - 1), r.state))
+                else:
+                    known = False
+            if known:
+                return out
         if d in ("set", "frozenset") and len(call.args) <= 1 and not call.keywords:
             if not call.args:
                 return [val(("set", ("empty",)), st)]
@@ -474,6 +607,8 @@ class EffectDomain(DefaultDomain):
         bound = self._bound_of(interp, call.func, st, fr)
         if bound is not None:
             return self._call_bound(interp, bound, call, st, fr)
+        if isinstance(call.func, ast.Attribute) and isinstance(call.func.value, ast.Name) and st.get(fr.local(call.func.value.id), None) == NONE:
+            return [exc(("exc", "AttributeError"), st)]   # None.<method>(...)
         if self.track(d) or d in self.results or d in self.raises:
             out = []
             pos = [a.value if isinstance(a, ast.Starred) else a for a in call.args]
